@@ -168,6 +168,13 @@ def handle (w : St) : List String → Option (St × String)
       some ({ w with orch := s'.orch, queue := s'.queue },
         match out with | .ok c => "ok " ++ showIds c false | .raised c => "raised " ++ showIds c false)
     | _, _, _ => bad w
+  | "cc.pollb" :: n :: rid :: ts :: bs =>
+    match n.toNat?, untok rid, ts.toInt?, parseIds bs with
+    | some n, some rd, some ts, some b =>
+      let (s', out) := CC.pollB Gen.table w.confOf w.sys n rd ts b
+      some ({ w with orch := s'.orch, queue := s'.queue },
+        match out with | .ok c => "ok " ++ showIds c false | .raised c => "raised " ++ showIds c false)
+    | _, _, _, _ => bad w
   | ["cc.start", id, rid, ts] =>
     match untok id, untok rid, ts.toInt? with
     | some (some i), some rd, some ts =>
